@@ -134,6 +134,7 @@ def run(ctx):
         ctx.ob(R, fn, "to_digit(16)", ok, "base16 decoding must use radix 16")
     rule_tail(ctx, F)
     rule_state(ctx, F)
+    rule_idx(ctx, F)
 
 
 # ---------------------------------------------------------------------------
@@ -247,27 +248,75 @@ def rule_tail(ctx, F):
 
 
 def _state_signature(b, pad_value):
-    """{(K, frozenset(facts on slot 3 vs the pad marker))} for every `self.next = K` (K constant)."""
+    """{(K, frozenset({(3, is_pad)}))}: the value `self.next` holds on each *successful* exit that completed a
+    group, together with what the path established about slot 3 (the fourth symbol) being the pad marker.
+    Path-sensitive over the (loop-free) body: constants assigned to temporaries are tracked, so
+    `self.next = if .. { 0 } else { EOF }` reads the same as two separate stores."""
+    F = F_GLOBAL[0]
+    bf = BranchFacts(b, F)
+    oks = {r[0] for r in return_assignments(b) if r[2] == "Ok"}
+    rets = set(b.return_blocks())
     sig = set()
-    for bi in sorted(b.reachable_blocks()):
-        for st in b.blocks[bi]["s"]:
-            if st[0] != "=" or len(st[1]) < 2:
+    count = [0]
+
+    def dfs(bb, env, nxt, slot3, onpath):
+        count[0] += 1
+        if count[0] > 20000 or bb in onpath:
+            return
+        env = dict(env)
+        blk = b.blocks[bb]
+        saw_ok = False
+        for st in blk["s"]:
+            if st[0] != "=":
                 continue
-            tgt = deep_strip(b.term_of_place(st[1]))
-            if not (tgt[0] == "field" and tgt[2] == "next"):
-                continue
-            k = const_value(b.term_of_rvalue(st[2]))
-            if k is None:
-                continue
-            facts = set()
-            for t, v in bool_facts(b, bi, F_GLOBAL[0]):
-                if t[0] == "bin" and t[1] in ("Eq", "Ne") and const_value(t[3]) == pad_value:
-                    lhs = deep_strip(t[2])
-                    if lhs[0] == "idx" and const_value(lhs[2]) is not None:
-                        eq = (t[1] == "Eq") == v
-                        if const_value(lhs[2]) == 3:
-                            facts.add((3, eq))
-            sig.add((k, frozenset(facts)))
+            if len(st[1]) == 1:
+                rv = st[2]
+                if rv[0] == "use" and rv[1][0] == "k" and isinstance(rv[1][2], int) and not isinstance(rv[1][2], bool):
+                    env[st[1][0]] = rv[1][2]
+                elif rv[0] == "use" and rv[1][0] in ("c", "m") and len(rv[1][1]) == 1 and rv[1][1][0] in env:
+                    env[st[1][0]] = env[rv[1][1][0]]
+                else:
+                    env.pop(st[1][0], None)
+                if st[1] == [0] and rv[0] == "agg" and rv[1][0] == "adt" and rv[1][2] == "Ok":
+                    saw_ok = True
+            else:
+                tgt = deep_strip(b.term_of_place(st[1]))
+                if tgt[0] == "field" and tgt[2] == "next":
+                    rv = st[2]
+                    k = None
+                    if rv[0] == "use" and rv[1][0] == "k" and isinstance(rv[1][2], int):
+                        k = rv[1][2]
+                    elif rv[0] == "use" and rv[1][0] in ("c", "m") and len(rv[1][1]) == 1:
+                        k = env.get(rv[1][1][0])
+                    if k is None:
+                        k = const_value(b.term_of_rvalue(rv))
+                    nxt = ("const", k) if k is not None else ("other",)
+        t = blk["t"]
+        if t["k"] == "ret" or bb in rets:
+            return
+        succs = b.succs(bb)
+        # an Ok value assigned here (or in a call returning into _0) marks a successful exit
+        if (saw_ok or bb in oks) and nxt is not None and nxt[0] == "const":
+            sig.add((nxt[1], frozenset({(3, slot3)} if slot3 is not None else set())))
+        if t["k"] == "switch":
+            ef = bf.edge_facts(bb)
+            for s, lab in succs:
+                s3 = slot3
+                if lab in ef:
+                    tt, vv = ef[lab]
+                    tt = deep_strip(tt)
+                    if tt[0] == "bin" and tt[1] in ("Eq", "Ne") and const_value(tt[3]) == pad_value and isinstance(vv, bool):
+                        lhs = deep_strip(tt[2])
+                        if lhs[0] == "idx" and const_value(lhs[2]) == 3:
+                            s3 = (tt[1] == "Eq") == vv
+                            if slot3 is not None and s3 != slot3:
+                                continue   # contradicts what this path already established about slot 3
+                dfs(s, env, nxt, s3, onpath | {bb})
+            return
+        for s, lab in succs:
+            dfs(s, env, nxt, slot3, onpath | {bb})
+
+    dfs(0, {}, None, None, frozenset())
     return sig
 
 
@@ -305,3 +354,64 @@ def rule_state(ctx, F):
                         ok = True
         ctx.ob(R, b, "input after end-of-data is rejected", ok,
                "%s must fail when called in the end-of-data state (next == EOF_MARKER)" % nm)
+
+
+# ---------------------------------------------------------------------------
+# the group buffer index stays inside the buffer whatever push returned
+# ---------------------------------------------------------------------------
+
+def rule_idx(ctx, F):
+    """The incremental decoders collect a group in `buf[self.next]` and reset
+    `next` when the group is complete.  Both document that pushing more input
+    after an error is fine.  So no exit of the function may leave
+    `next == buf.len()`: every path from the "group complete" edge to a
+    return (error returns included) must pass a store to `self.next`."""
+    R = "C18.idx"
+    ctx.floor(R, 2)
+    n = 0
+    for p, b in sorted(F.bodies.items()):
+        if not re.match(r"^utils::base(16|32|64)::", p.lstrip("<")) or "::test" in p or b.kind != "AssocFn":
+            continue
+        # buffer writes indexed by self.next
+        idx_sites = []
+        for bi in sorted(b.reachable_blocks()):
+            t = b.blocks[bi]["t"]
+            if t["k"] == "assert" and t["msg"][0] == "bounds":
+                it = deep_strip(b.term_of_operand(t["msg"][2]))
+                ln = const_value(b.term_of_operand(t["msg"][1]))
+                if it[0] == "field" and it[2] == "next" and deep_strip(it[1]) == ("arg", 1) and ln is not None:
+                    idx_sites.append((bi, ln))
+        if not idx_sites:
+            continue
+        N = idx_sites[0][1]
+        stores = set()
+        for bi in b.reachable_blocks():
+            for st in b.blocks[bi]["s"]:
+                if st[0] == "=" and len(st[1]) >= 3 and st[1][0] == 1 and isinstance(st[1][-1], list) and st[1][-1][0] == "." \
+                        and st[1][-1][2] == "next":
+                    rv = deep_strip(b.term_of_rvalue(st[2]))
+                    alts = rv[2] if rv[0] == "phi" else [rv]
+                    if all(const_value(a) is not None and const_value(a) != N for a in alts):
+                        stores.add(bi)     # reset to a constant (0 / done marker), possibly chosen by an if-expression
+        full_edges = []
+        bf = BranchFacts(b, F)
+        for sw in sorted(b.reachable_blocks()):
+            if b.blocks[sw]["t"]["k"] != "switch":
+                continue
+            for lab, (tt, vv) in bf.edge_facts(sw).items():
+                s = deep_strip(tt)
+                if s[0] == "bin" and s[1] == "Eq" and vv is True and const_value(s[3]) == N and \
+                        any(x[0] == "field" and x[2] == "next" for x in walk(s[2])):
+                    full_edges.append((sw, b.edge_target(sw, lab)))
+        if not full_edges:
+            continue
+        rets = set(b.return_blocks())
+        for sw, tgt in full_edges:
+            n += 1
+            reach = {tgt} if tgt in stores else b.reach_from(tgt, removed_blocks=stores)
+            leak = sorted(r for r in rets if r in reach) if tgt not in stores else []
+            ctx.ob(R, b, "group-complete path resets the buffer index on every exit", not leak,
+                   "%s can return with self.next == %d (the length of buf): the documentation allows pushing more input "
+                   "after an error, and the next push indexes buf[%d] out of bounds — a panic instead of an error"
+                   % (p.split("::")[-2] + "::" + p.split("::")[-1], N, N), b.where(sw))
+    ctx.call_sites += n
